@@ -122,6 +122,8 @@ class IxWP(nvwp.WP):
 
     def view(self, node):
         n = look(node)
+        if n.get('kind') == 'CXXConstructExpr' and len(n.get('inner', [])) == 1 and (tmatch(CMAP_T, n['type']) or tmatch(MAP_T, n['type'])):
+            return self.view(n['inner'][0])       # copy of a map: the same view
         if n.get('kind') in ('DeclRefExpr', 'CXXMemberCallExpr', 'CallExpr', 'CXXOperatorCallExpr', 'MemberExpr'):
             v = self.ev(n)
             if v.s == 'View':
